@@ -30,6 +30,8 @@ func (t *TransactionCancelTimer) Start() error {
 		return fmt.Errorf("TransactionCancelTimer already started")
 	}
 	t.done = make(chan struct{})
+	// the goroutine waits on the channel it was started with: Stop resets t.done under the mutex
+	done := t.done
 
 	go func() {
 		timer := time.NewTimer(t.delay)
@@ -43,10 +45,9 @@ func (t *TransactionCancelTimer) Start() error {
 			if t.fnc != nil {
 				t.fnc()
 			}
-		case <-t.done:
+		case <-done:
 			// Stop the timer
 			log.Infof("TransactionCancelTimer stopped")
-			t.done = nil
 		}
 	}()
 
